@@ -13,6 +13,8 @@ import shutil
 import subprocess
 import sys
 import tempfile
+import threading
+import traceback
 import time
 
 VERIF = os.path.dirname(os.path.dirname(os.path.abspath(__file__)))
@@ -64,6 +66,7 @@ class Ctx:
         self.cov = {}
         self._vh = {}
         self._spec = None
+        self._lock = threading.Lock()
         self.findings = load_known_findings()
         # evidence goes to /verif/evidence unless a dev run (bin/trymut) redirects it
         self.evdir = os.environ.get("VERIF_EVIDENCE_DIR") or os.path.join(VERIF, "evidence")
@@ -150,9 +153,11 @@ class Ctx:
 
     # -------------------------------------------------------------------- TLC
     def spec_dir(self):
-        if not self._spec:
-            self._spec = self.path("spec")
-            shutil.copytree(os.path.join(VERIF, "spec"), self._spec)
+        with self._lock:
+            if not self._spec:
+                d = self.path("spec")
+                shutil.copytree(os.path.join(VERIF, "spec"), d)
+                self._spec = d
         return self._spec
 
     def tlc(self, module, cfg=None, workers=1, env=None, simulate=None, depth=None, timeout=1800,
@@ -341,5 +346,8 @@ def main_wrapper(fn, pid, argv):
         rc = fn(ctx)
     except MachineryError as e:
         print("MACHINERY-ERROR property=%s: %s" % (pid, e), flush=True)
+        rc = 2
+    except Exception:  # a bug in the machinery is never a verdict
+        print("MACHINERY-ERROR property=%s: uncaught exception\n%s" % (pid, traceback.format_exc()), flush=True)
         rc = 2
     sys.exit(rc)
